@@ -10,7 +10,7 @@ from .. import entrypoints as E
 from .. import world as W
 from ..colalg import IND, RMAX, RMEAN, RMIN, Col, T, k_
 from ..interp import Obj, SymList, Unsupported
-from ..report import AnalysisError, Finding
+from ..report import AnalysisError, Finding, single
 from ..term import Op, Sym, walk
 
 D = "pfhedge.instruments.derivative."
@@ -83,7 +83,7 @@ def check(ctx, run):
     # forward start and realised variance
     fi = E.functional(ctx, "european_forward_start_payoff")
     i0 = W.integer("start")
-    val = [r for r in interp.explore(fi, [], dict(input=S_, strike=K, start_index=i0)) if not r["raises"]][0]["value"]
+    val = single(interp.explore(fi, [], dict(input=S_, strike=K, start_index=i0)))["value"]
     _shape_rule(run, prog, fi, val, {"S": ("N", "T")})
     got = C.col(val, sp.Symbol("unused"))
     want = sp.Max(0, Sf(T - 1) / Sf(C.scalar(i0)) - Ks)
@@ -93,7 +93,7 @@ def check(ctx, run):
         run.fail(Finding("C12.R1", fi.qualname, f"{got} (definition {want})", "the payoff differs from its contractual definition", file=str(prog.modules[fi.module].path), line=fi.node.lineno))
     fi = E.functional(ctx, "realized_variance")
     dt = W.fl("dt")
-    val = [r for r in interp.explore(fi, [], dict(input=S_, dt=dt)) if not r["raises"]][0]["value"]
+    val = single(interp.explore(fi, [], dict(input=S_, dt=dt)))["value"]
     _shape_rule(run, prog, fi, val, {"S": ("N", "T")})
     got = C.col(val, sp.Symbol("unused"))
     want = RMEAN((sp.log(Sf(k_ + 1)) - sp.log(Sf(k_))) ** 2, 0, T - 2) / C.scalar(dt)
